@@ -13,7 +13,7 @@ for d in seeded/$PAT/; do
   name=$(basename "$d")
   [ -f "$d/patch.diff" ] && [ -f "$d/meta.json" ] || continue
   prop=$(python3 -c "import json;print(json.load(open('$d/meta.json'))['breaks_property'])")
-  git -C /repo apply "$d/patch.diff" 2>/dev/null || { echo "$name: patch does not apply"; continue; }
+  git -C /repo apply "/verif/${d}patch.diff" 2>/dev/null || { echo "$name: patch does not apply"; continue; }
   out=$(./check $prop 2>&1); rc=$?
   v=$(echo "$out" | grep -E "^VIOLATION" | head -1)
   git -C /repo checkout -- .
